@@ -358,8 +358,11 @@ class NumpyFloatToFixConverter(object):
 
     def __call__(self, values):
         """Convert the given NumPy array of values into fixed point format."""
-        # Scale and cast to appropriate int types
-        vals = values * 2.0 ** self.n_frac
+        # Scale and cast to appropriate int types.  The arithmetic is done in
+        # double precision whatever the dtype of the input: in a narrower float
+        # type the scale itself overflows (2.0**16 is inf as a float16, 2.0**128
+        # as a float32) and every element would saturate or become NaN.
+        vals = np.asarray(values, dtype=np.float64) * 2.0 ** self.n_frac
 
         # Saturate the values.  The maximum need not be exactly representable
         # as a float (2**63 - 1 becomes 2.0**63): casting a value clipped to
